@@ -157,7 +157,7 @@ def all_trees(lo, hi):
     return out
 
 
-def h_scenario(parts, header, footer, wpc, trees, writer=True, spill="sym", min_part=1, buf="bytes"):
+def h_scenario(parts, header, footer, wpc, trees, writer=True, spill="sym", min_part=1, buf="bytes", tight=False):
     """parts: per sub-stream, list of chunks-per-partition; trees: per sub-stream merge tree;
     buf: the caller hands its chunks over as bytes or as bytearray objects (which it keeps)"""
     import odc.geo.cog._mpu as mpu
@@ -203,7 +203,9 @@ def h_scenario(parts, header, footer, wpc, trees, writer=True, spill="sym", min_
         bags.append(FakeBag(plist))
     data_end = cur
     total = data_end + ftr
-    w = Writer(minw, min_part=min_part, max_part=min_part + 9999) if writer else None
+    # tight: a writer with few part numbers (symbolic upper end of its range)
+    max_part = Int("max_part", min_part, min_part + 16) if tight else min_part + 9999
+    w = Writer(minw, min_part=min_part, max_part=max_part) if writer else None
     seen = {}
 
     def mk_h(obs, **kw):
@@ -275,6 +277,13 @@ def h_scenario(parts, header, footer, wpc, trees, writer=True, spill="sym", min_
         mpu.MPUChunk.from_dask_bag, mpu.MPUChunk.collate_substreams = staticmethod(saved[0]), staticmethod(saved[1])
         dbase.tokenize, ddel.delayed = saved[2], saved[3]
 
+    if tight and writer:
+        # every partition owns writes_per_chunk part numbers after the one for the header/left-over
+        # part: a writer that has fewer is refused when the graph is built, before anything is written
+        need_last = min_part + sum(len(sub) for sub in parts) * wpc
+        if bool(max_part < need_last):  # forks
+            prove("M3_too_few_part_numbers_refused_before_anything_is_written", isinstance(failure, ValueError) and not w.calls and w.fin_calls == 0)
+            return
     if failure is not None:
         prove(f"M1_no_failure[{type(failure).__name__}: {str(failure)[:60]}]", False)
         return
@@ -469,6 +478,9 @@ def _scn_params(tier, rng):
         # the caller's chunks are bytearray objects (mutable): nothing may be appended to them
         out.append(dict(parts=[[2, 1]], header=True, footer=False, wpc=1, trees=[[0, 1]], buf="bytearray"))
         out.append(dict(parts=[[2], [2]], header=False, footer=True, wpc=2, trees=[0, 0], buf="bytearray"))
+        # writers with few part numbers
+        out.append(dict(parts=[[1, 1, 1]], header=True, footer=True, wpc=1, trees=[[[0, 1], 2]], tight=True))
+        out.append(dict(parts=[[2], [1, 1]], header=False, footer=False, wpc=2, trees=[0, [0, 1]], tight=True, min_part=5))
         # a short leading sub-stream in front of a longer one, several writes per chunk (right-nested merges)
         for hdr_ in (True, False):
             out.append(dict(parts=[[1], [1, 1]], header=hdr_, footer=False, wpc=2, trees=[0, [0, 1]]))
@@ -482,6 +494,7 @@ def _scn_params(tier, rng):
     rng.shuffle(p4)
     out += p4[:24]
     out += [dict(s, buf="bytearray") for s in shapes(2, 2, (1, 2))[::3]]
+    out += [dict(s, tight=True) for s in shapes(3, 1, (1, 2, 3))[::2]]
     out += [dict(parts=[[1], [c, 1]], header=h_, footer=f_, wpc=w_, trees=[0, [0, 1]]) for c in (1, 2) for h_ in (True, False) for f_ in (True, False) for w_ in (2, 3)]
     return out
 
